@@ -48,9 +48,11 @@ func (n *LocalNode) Join(peer chord.VNode) error {
 	predecessor, successors, err := n.executeJoin(peer)
 	if err != nil {
 		n.state.Set(chord.Inactive)
+		verifPoint("join.failed", n)
 		return err
 	}
 
+	verifPoint("join.requested", n)
 	n.successorsMu.Lock()
 	n.succListHash.Store(n.hash(successors))
 	n.successors = successors
@@ -60,14 +62,18 @@ func (n *LocalNode) Join(peer chord.VNode) error {
 	n.predecessor = predecessor
 	n.predecessorMu.Unlock()
 
+	verifPoint("join.neighbours", n)
 	n.startTasks()
 
 	n.logger.Info("Successfully joined Chord ring", zap.Object("predecessor", predecessor.Identity()), zap.Object("successor", successors[0].Identity()))
 
+	verifPoint("join.finish.pred", n)
 	if err := predecessor.FinishJoin(true, false); err != nil { // advisory to let predecessor update successor list
 		n.logger.Warn("error sending advisory to predecessor", zap.Error(err))
 	}
+	verifPoint("join.finish.self", n)
 	n.state.Set(chord.Active)                                     // release local join lock
+	verifPoint("join.finish.succ", n)
 	if err := successors[0].FinishJoin(false, true); err != nil { // release successor join lock
 		n.logger.Warn("error releasing join lock in successor", zap.Error(err))
 	}
@@ -126,6 +132,7 @@ func (n *LocalNode) RequestToJoin(joiner chord.VNode) (chord.VNode, []chord.VNod
 		return nil, nil, chord.ErrJoinInvalidState
 	}
 
+	verifPoint("rtj.locked", n)
 	// TODO: instrument how long it took to grab the lock and the duration it was held for
 	n.predecessorMu.Lock()
 	defer n.predecessorMu.Unlock()
@@ -153,9 +160,12 @@ func (n *LocalNode) RequestToJoin(joiner chord.VNode) (chord.VNode, []chord.VNod
 	ctx, cancel := context.WithCancel(context.Background())
 	defer cancel()
 
+	verifPoint("rtj.transfer.begin", n)
 	if err := n.transferKeysUpward(ctx, prevPredecessor, joiner); err != nil {
+		verifPoint("rtj.transfer.fail", n)
 		return nil, nil, chord.ErrJoinTransferFailure
 	}
+	verifPoint("rtj.transfer.end", n)
 	joined = true
 	n.surrogate = joiner
 
@@ -244,6 +254,7 @@ func (n *LocalNode) Leave() {
 
 	left = true
 
+	verifPoint("leave.finish", n)
 	n.logger.Info("Sending advisory to update pointers and releasing membership locks")
 
 	// release membership locks
@@ -252,6 +263,7 @@ func (n *LocalNode) Leave() {
 			n.logger.Warn("error sending advisory to predecessor", zap.Error(err))
 		}
 	}
+	verifPoint("leave.finish.self", n)
 	n.state.Set(chord.Left) // release local leave lock
 	if succ != nil && succ.ID() != n.ID() {
 		if err := succ.FinishLeave(false, true); err != nil { // if applicable, release successor leave lock
@@ -302,11 +314,14 @@ func (n *LocalNode) executeLeave() (pre, succ chord.VNode, err error) {
 	n.surrogateMu.Lock()
 	defer n.surrogateMu.Unlock()
 
+	verifPoint("leave.locked", n)
 	// kv requests are now blocked
 	ctx, cancel := context.WithCancel(context.Background())
 	defer cancel()
 
+	verifPoint("leave.transfer.begin", n)
 	if err := n.transferKeysDownward(ctx, succ); err != nil {
+		verifPoint("leave.transfer.fail", n)
 		n.logger.Error("Transferring KV to successor", zap.Object("successor", succ.Identity()), zap.Error(err))
 		// release held lock and try again
 		n.state.Set(chord.Active)
@@ -316,6 +331,7 @@ func (n *LocalNode) executeLeave() (pre, succ chord.VNode, err error) {
 		return nil, nil, err
 	}
 
+	verifPoint("leave.transfer.end", n)
 	n.surrogate = n
 
 	return
